@@ -227,6 +227,8 @@ def to_symlib(gs):
           'controller': {'dt': gs['dt'], 'timesteps': gs['steps']},
           'integrators': integ, 'modules': wfmods + mods, 'boundary_children': [['ReflectorMirror', {}]],
           'particles': [], 'species_order': list(gs['species']), 'tag_columns': {}}
+    if gs.get('random_pairs'):
+        sc['phase_attrs'] = {'randomPairs': 'yes'}      # the pair loops run over a randomly permuted copy of the lists (same results in exact arithmetic)
     cols = {}
     for p in gs['particles']:
         for n in p.get('tags', {}):
@@ -628,6 +630,17 @@ def gen_scenario(rng, flavour=None):
             modules.append(('psum', s1, s2, name, ty, rng.choice(CUTS), F(sym), e, fi, fj))
             symtab[s1].append((name, ty, d))
             if s2 != s1: symtab[s2].append((name, ty, d))
+    # --- a pair sum that reads a derived symbol ONLY through particleFactor_j (one-sided factors, the fluid/wall idiom): the symbol
+    #     it reads is itself a pair sum, so the reader must be staged one later; orientation is fixed by the two different colours
+    if len(species) >= 2 and flavour in ('general', 'posonly') and maxdeg >= 2 and rng.random() < 0.35:
+        a, b = sorted(rng.sample(species, 2), key=lambda s: col[s])
+        if frozen_only not in (a, b):
+            ex = gen_pair_expr(rng, 'S', 0, [], [], False, 1)
+            modules.append(('psum', a, b, 'fx', 'S', rng.choice(CUTS), F(rng.choice([1, -1])), ex, ONE['S'], ONE['S']))
+            for sp in (a, b): symtab[sp].append(('fx', 'S', max(1, degree(ex, {}))))
+            ey = ('num', rnd_coef(rng))
+            modules.append(('psum', a, b, 'fy', 'S', rng.choice(CUTS), F(rng.choice([1, -1])), ey, ONE['S'], ('tag', 'j', 'fx', 'S')))
+            for sp in (a, b): symtab[sp].append(('fy', 'S', max(1, degree(ex, {}))))
     # --- forces
     def pair_choice():
         a = rng.choice(free_species); b = rng.choice(species)
@@ -711,7 +724,7 @@ def gen_scenario(rng, flavour=None):
     # shuffle the module order (stages must come out the same; forces registered in any order)
     rng.shuffle(modules)
     return dict(box=box, periodic=periodic, dt=dt, steps=steps, species=species, integrators=integrators, modules=modules,
-                particles=particles, flavour=flavour, maxdeg=maxdeg, frozen_only=frozen_only)
+                particles=particles, flavour=flavour, maxdeg=maxdeg, frozen_only=frozen_only, random_pairs=(rng.random() < 0.3))
 
 def max_degree(gs):
     """largest degree (in primitive state variables) of any module expression incl. its factor"""
@@ -1029,7 +1042,16 @@ def main(argv):
                 if F(m[4] if m[0] == 'pforce' else m[5]) < cutmax[key]: summ['list_gt_force_cutoff'] += 1
         bad = check_stages(gs, rs)
         if bad:
-            summ['disagreements'].append(dict(case=case, kind='stages', detail=bad)); continue
+            # the model was given other stages than the real binary uses: no state comparison, but the implementation-side oracles still apply
+            summ['disagreements'].append(dict(case=case, kind='stages', detail=bad, scenario=to_symlib(gs)))
+            hh = max(exact_horizon(gs, ms) - 1, 0)
+            for name, res in {'frozen': oracle_frozen(gs, rs), 'pairsum': oracle_pairsum(gs, rs, hh)}.items():
+                o = summ['oracles'].setdefault(name, dict(applied=0, violated=0))
+                if res is None: o['applied'] += 1
+                elif not (isinstance(res, str) and res.startswith('n/a')):
+                    o['applied'] += 1; o['violated'] += 1
+                    summ['violations'].append(dict(case=case, oracle=name, detail=res, dir=d, model_input=to_model(gs), scenario=to_symlib(gs)))
+            continue
         if len(ms) != len(rs):
             summ['disagreements'].append(dict(case=case, kind='number of dumps', detail='%d vs %d' % (len(ms), len(rs)))); continue
         h = exact_horizon(gs, ms)
@@ -1054,7 +1076,7 @@ def main(argv):
         hh = max(h - 1, 0)
         results = {'frozen': oracle_frozen(gs, rs), 'momentum': oracle_momentum(gs, rs, hh), 'pairsum': oracle_pairsum(gs, rs, hh),
                    'constforce': oracle_const(gs, rs, hh)}
-        if case % 4 == 0 and h == len(ms): results['lambda'] = oracle_lambda(gs, rs, hh, d, rng)
+        if (case % 2 == 0 or gs.get('random_pairs')) and h == len(ms): results['lambda'] = oracle_lambda(gs, rs, hh, d, rng)
         if gs['flavour'] == 'reverse' and h == len(ms): results['reverse'] = oracle_reverse(gs, rs, hh, d)
         for name, res in results.items():
             o = summ['oracles'].setdefault(name, dict(applied=0, violated=0))
